@@ -8,7 +8,7 @@ import plan
 NOTES = {
  "C01": "TLC checks the declarative priority-list/guard-walk formula P_C01 on every reachable state of the engine model for the corpus machines in every configuration (bounded calls, every guard valuation); the same formula and the full callback oracle are evaluated on traces recorded from drivers built from /repo/include.",
  "C02": "P_C02 (exit* action* entry* grouping, source exit last / target entry first, exactly once, same occurrence; nothing runs when nothing is taken) model-checked and evaluated on implementation traces; callback order at every nesting level is compared line by line with the specification.",
- "C03": "P_C03/P_C03b (entry/exit ledger in {0,1}, ledger = active tree at quiescence, region membership, balanced after stop) on the model and on traces with start/stop/restart histories; reported ids at every active level are compared with the documented numbering (IdOf) at every callback and return.",
+ "C03": "P_C03/P_C03b (entry/exit ledger in {0,1}, ledger = active tree at quiescence, region membership, balanced after stop) on the model and on traces with start/stop/restart histories; reported ids at every active level are compared with the documented numbering (IdOf) at every callback and return; the introspection calls of each back-end - backmp11 is_state_active<S> for every state and visit(), back / back11 visit_current_states() and get_state_by_id(id) - are compared at every return; random machine definitions in the conformance phase.",
  "C04": "P_C04 (no re-entrancy inside a transition, stored payloads dispatched exactly once in submission order, nothing left behind) with nested submissions from every callback position, enqueue_event and the drain APIs, model-checked with a directive budget and validated on traces.",
  "C05": "deferred queue / event pool semantics of the specification (sequence numbers, stable re-sort, restart-from-front) validated line by line against traces of deferring machines; P_C05 (a deferred occurrence is not reported through no_transition while pending).",
  "C06": "P_C06 (regions once in order; handled bit <=> some transition taken; zero <=> nothing consulted; no_transition once per region with the region's id, only when zero) on the model for all guard valuations and on traces.",
